@@ -4915,4 +4915,83 @@ void ts_query_cursor_set_max_start_depth(
   self->max_start_depth = max_start_depth;
 }
 
+#ifdef TREE_SITTER_VERIF
+// Verification hook H4 (add-only, guarded): drives the heap of finished states of a
+// query cursor directly, with fabricated captures of which only the start byte is
+// ever read, so that a checker can run every short sequence of the operations that
+// ts_query_cursor_next_capture and ts_query_cursor_remove_match perform on it.
+
+TSQueryCursor *ts_verif_fsheap_new(void) {
+  return ts_query_cursor_new();
+}
+
+void ts_verif_fsheap_delete(TSQueryCursor *self) {
+  ts_query_cursor_delete(self);
+}
+
+void ts_verif_fsheap_push(
+  TSQueryCursor *self,
+  uint32_t id,
+  uint16_t pattern_index,
+  const uint32_t *start_bytes,
+  uint32_t count
+) {
+  QueryState state;
+  memset(&state, 0, sizeof(state));
+  state.id = id;
+  state.pattern_index = pattern_index;
+  state.capture_list_id = capture_list_pool_acquire(&self->capture_list_pool);
+  CaptureList *list = capture_list_pool_get_mut(&self->capture_list_pool, state.capture_list_id);
+  for (uint32_t i = 0; i < count; i++) {
+    TSQueryCapture capture;
+    memset(&capture, 0, sizeof(capture));
+    capture.node.context[0] = start_bytes[i];
+    capture.index = i;
+    array_push(list, capture);
+  }
+  ts_query_cursor__push_finished_state(self, &state);
+}
+
+// The part of one ts_query_cursor_next_capture step that concerns finished states.
+bool ts_verif_fsheap_take(TSQueryCursor *self, uint32_t *id, uint32_t *capture_index) {
+  ts_query_cursor__heapify_finished_states(self);
+  while (self->finished_states.size > 0) {
+    QueryState *state = array_get(&self->finished_states, 0);
+    const CaptureList *captures = capture_list_pool_get(&self->capture_list_pool, state->capture_list_id);
+    if (state->consumed_capture_count >= captures->size) {
+      capture_list_pool_release(&self->capture_list_pool, state->capture_list_id);
+      finished_state_pop(&self->finished_states, &self->capture_list_pool);
+      self->finished_states_heap_size = self->finished_states.size;
+      continue;
+    }
+    *id = state->id;
+    *capture_index = state->consumed_capture_count;
+    state->consumed_capture_count++;
+    finished_state_sift_down(&self->finished_states, 0, &self->capture_list_pool);
+    return true;
+  }
+  return false;
+}
+
+// Index (> 0) of the first element of the heap-ordered prefix that precedes its
+// parent, or 0 when the prefix is a heap.
+uint32_t ts_verif_fsheap_first_disorder(const TSQueryCursor *self) {
+  for (uint32_t i = 1; i < self->finished_states_heap_size && i < self->finished_states.size; i++) {
+    if (finished_state_precedes(
+      array_get(&self->finished_states, i),
+      array_get(&self->finished_states, (i - 1) / 2),
+      &self->capture_list_pool
+    )) return i;
+  }
+  return 0;
+}
+
+uint32_t ts_verif_fsheap_ids(const TSQueryCursor *self, uint32_t *ids, uint32_t capacity) {
+  for (uint32_t i = 0; i < self->finished_states.size && i < capacity; i++) {
+    ids[i] = array_get(&self->finished_states, i)->id;
+  }
+  return self->finished_states.size;
+}
+#endif
+
 #undef LOG
